@@ -520,6 +520,35 @@ func genC07(g *Gen) {
 			g.Case("pb", J{"ops": withEWD(g, ops)})
 		}
 	}
+	// a Marshal that failed (writer error inside the header, at its end, inside the body) leaves nothing behind: on a
+	// fresh stream the next frames, of the same or another size class (small, 4 KiB, 16 KiB+, 64 KiB+), are whole
+	for c := 0; c < g.N(40, 1200); c++ {
+		sizes := []int{5, 100, 4097, 16384, 16385, 20000, 40000, 70000}
+		b1, b2 := sizes[r.Intn(len(sizes))], sizes[r.Intn(len(sizes))]
+		if c%2 == 0 {
+			b1, b2 = sizes[3+r.Intn(5)], sizes[3+r.Intn(5)] // both large
+		}
+		kind := []string{"raw", "pb"}[r.Intn(2)]
+		bad := pbMarshalOp(g, kind, b1)
+		k := []int64{0, 1, 24, 31, 32, 33, 40, int64(32 + b1/2), int64(31 + b1), int64(32 + b1 - 1)}[r.Intn(10)]
+		if k < 32 || r.Intn(2) == 0 {
+			bad["w"] = [][]int64{{k, 1}} // fails on the first write
+		} else {
+			bad["w"] = [][]int64{{0, 0}, {k - 32, 1}} // header accepted, fails on a later write
+		}
+		ops := []J{bad, {"k": "Stream", "bytes": []int64{}}}
+		kinds2 := []string{}
+		for i := 1 + r.Intn(2); i > 0; i-- {
+			k2 := []string{"raw", "pb", kind}[r.Intn(3)]
+			ops = append(ops, pbMarshalOp(g, k2, b2))
+			kinds2 = append(kinds2, k2)
+			b2 = sizes[r.Intn(len(sizes))]
+		}
+		for _, k2 := range kinds2 {
+			ops = append(ops, J{"k": "Unmarshal", "avail": -1, "fault": "EOF", "chunks": pbChunks(g), "kind": k2})
+		}
+		g.Case("pb", J{"ops": withEWD(g, ops)})
+	}
 	// one large frame, read again and again (Rewind) with the stream cut at every block boundary j*2^k and
 	// 32 + j*2^k (+-1) for 2^k = 512 .. 65536: chunked body readers change their EOF handling exactly there
 	for c := 0; c < g.N(1, 6); c++ {
